@@ -93,8 +93,6 @@ fn timeout_handler(data: TimerData) {
     }
 
     let event_data = unsafe { &mut *data.event_data };
-    // remove the event timer
-    event_data.timer.borrow_mut().take();
 
     // the coroutine may not be stored yet: its subscriber armed this timer and was held up
     // since then. leave a mark first, like the selector does for an event, so that the
@@ -107,6 +105,16 @@ fn timeout_handler(data: TimerData) {
         Some(co) => co,
         None => return,
     };
+
+    // the io is over for the coroutine, remove the event timer. it is this (popped) one,
+    // unless the coroutine was run again in between and armed a new timer for the same io,
+    // which must not stay behind and fire into a later io. we are in the selector thread
+    event_data.timer.borrow_mut().take().map(|h| {
+        unsafe {
+            h.with_mut_data(|value| value.data.event_data = std::ptr::null_mut());
+        }
+        h.remove()
+    });
 
     set_co_para(&mut co, io::Error::new(io::ErrorKind::TimedOut, "timeout"));
 
